@@ -53,3 +53,124 @@ def rev_scan_fn(x):
     from jax import lax
 
     return lax.scan(lambda c, e: (c + e, c), jnp.float32(0.0), x, reverse=True)[1]
+
+
+# ---------------------------------------------------------------------------------------------
+# C07: parametric @onnx_function targets (decorated subclasses of undecorated bases)
+# ---------------------------------------------------------------------------------------------
+import numpy as _np
+
+
+def _weights(w: int) -> "_np.ndarray":
+    base = (_np.arange(9, dtype=_np.float32).reshape(3, 3) - 4.0) / 8.0
+    return base if w == 1 else base.T * 1.5 + 0.25
+
+
+class _PlainBase:
+    """Not a pytree: state lives in __dict__."""
+
+    def __init__(self, w: int, cfg: int):
+        self.w = _weights(w)
+        self.cfg = cfg
+
+    def __call__(self, x, scale=1.0, flip=False):
+        y = x.astype(jnp.float32) @ self.w
+        if self.cfg == 2:
+            y = jnp.tanh(y)
+        return jnp.where(flip, -y, y) * scale
+
+
+@onnx_function
+class PlainShared(_PlainBase):
+    pass
+
+
+@onnx_function(unique=True)
+class PlainUnique(_PlainBase):
+    pass
+
+
+def _free_impl(x, scale=1.0, flip=False):
+    y = x.astype(jnp.float32) @ _weights(1)
+    return jnp.where(flip, -y, y) * scale
+
+
+@onnx_function
+def free_shared(x, scale=1.0, flip=False):
+    return _free_impl(x, scale, flip)
+
+
+@onnx_function(unique=True)
+def free_unique(x, scale=1.0, flip=False):
+    return _free_impl(x, scale, flip)
+
+
+try:
+    from flax import nnx as _nnx
+
+    class _NnxBase(_nnx.Module):
+        def __init__(self, w: int, cfg: int):
+            self.w = _nnx.Param(jnp.asarray(_weights(w)))
+            self.cfg = cfg
+
+        def __call__(self, x, scale=1.0, flip=False):
+            y = x.astype(jnp.float32) @ self.w.value
+            if self.cfg == 2:
+                y = jnp.tanh(y)
+            return jnp.where(flip, -y, y) * scale
+
+    @onnx_function
+    class NnxShared(_NnxBase):
+        pass
+
+    @onnx_function(unique=True)
+    class NnxUnique(_NnxBase):
+        pass
+
+    class _NnxNestedBase(_nnx.Module):
+        """weights live in a NESTED sub-module (the common case for real models)"""
+
+        def __init__(self, w: int, cfg: int):
+            self.inner = _NnxBase(w, cfg)
+
+        def __call__(self, x, scale=1.0, flip=False):
+            return self.inner(x, scale=scale, flip=flip) + 1.0
+
+    @onnx_function
+    class NnxNestedShared(_NnxNestedBase):
+        pass
+
+    @onnx_function(unique=True)
+    class NnxNestedUnique(_NnxNestedBase):
+        pass
+
+except Exception:  # noqa: BLE001
+    pass
+
+try:
+    import equinox as _eqx
+
+    class _EqxBase(_eqx.Module):
+        w: jnp.ndarray
+        cfg: int = _eqx.field(static=True)
+
+        def __init__(self, w: int, cfg: int):
+            self.w = jnp.asarray(_weights(w))
+            self.cfg = cfg
+
+        def __call__(self, x, scale=1.0, flip=False):
+            y = x.astype(jnp.float32) @ self.w
+            if self.cfg == 2:
+                y = jnp.tanh(y)
+            return jnp.where(flip, -y, y) * scale
+
+    @onnx_function
+    class EqxShared(_EqxBase):
+        pass
+
+    @onnx_function(unique=True)
+    class EqxUnique(_EqxBase):
+        pass
+
+except Exception:  # noqa: BLE001
+    pass
